@@ -235,10 +235,14 @@ func (s *ruleStats) flush(start time.Time) {
 	_ = os.WriteFile(base+".hashes", hb, 0o644)
 }
 
+// ruleSuffix distinguishes the evidence of a variant unit (same sources, other process
+// environment, e.g. GOMAXPROCS=1) from the main unit's; replay files keep the plain rule name.
+func ruleSuffix() string { return os.Getenv("VERIF_RULE_SUFFIX") }
+
 func writeReplay(prop, rule string, raw []byte, v Verdict) string {
 	rf := ReplayFile{Property: prop, Rule: rule, Message: v.Fail, Known: v.Known, Case: raw}
 	b, _ := json.MarshalIndent(rf, "", " ")
-	p := filepath.Join(replayDir(prop), fmt.Sprintf("%s-shard%d.json", rule, func() int { i, _ := shard(); return i }()))
+	p := filepath.Join(replayDir(prop), fmt.Sprintf("%s%s-shard%d.json", rule, ruleSuffix(), func() int { i, _ := shard(); return i }()))
 	_ = os.WriteFile(p, b, 0o644)
 	return p
 }
@@ -247,7 +251,7 @@ func writeReplay(prop, rule string, raw []byte, v Verdict) string {
 func Run[C any](t *testing.T, prop, rule string, o Opts, gen func(*rapid.T) C, interp func(C) Verdict) {
 	t.Helper()
 	start := time.Now()
-	st := newStats(prop, rule)
+	st := newStats(prop, rule+ruleSuffix())
 	defer st.flush(start)
 
 	judge := func(c C, fatal func(string)) {
@@ -359,7 +363,7 @@ func replayOne[C any](t *testing.T, prop, rule, path string, st *ruleStats, judg
 func Enumerate[C any](t *testing.T, prop, rule string, each func(yield func(C) bool), interp func(C) Verdict) {
 	t.Helper()
 	start := time.Now()
-	st := newStats(prop, rule)
+	st := newStats(prop, rule+ruleSuffix())
 	st.Exhaustive = true
 	defer st.flush(start)
 	judge := func(c C, fatal func(string)) {
@@ -424,7 +428,7 @@ func Enumerate[C any](t *testing.T, prop, rule string, each func(yield func(C) b
 func Fuzz[C any](f *testing.F, prop, rule string, seeds [][]byte, gen func(*rapid.T) C, interp func(C) Verdict) {
 	f.Helper()
 	start := time.Now()
-	st := newStats(prop, rule)
+	st := newStats(prop, rule+ruleSuffix())
 	st.Shard = os.Getpid()
 	st.Note = "native go fuzzing worker; evaluations counted per worker process"
 	f.Add([]byte{})
